@@ -97,11 +97,14 @@ def run_check(prop, tier, seed, only=None):
     sys.path.insert(0, ROOT)
     mod = load_check(prop)
     jobs = mod.jobs(tier)
-    if only:
-        jobs = [j for j in jobs if only in j['harness'] or only == j.get('name')]
     for j in jobs:
         j.setdefault('name', j['harness'] + ('' if not j.get('params') else ':' + ','.join(
             f'{k}={v}' for k, v in sorted(j['params'].items()) if not isinstance(v, (list, dict)) or len(str(v)) < 40)))
+    if only:
+        jobs = [j for j in jobs if only in j['harness'] or only == j['name']]
+        if not jobs:
+            print(f'HARNESS-ERROR: no job matches --only {only}')
+            return 2
     nproc = int(os.environ.get('VERIF_PROCS', '16'))
     order = sorted(range(len(jobs)), key=lambda i: -float(jobs[i].get('weight', jobs[i].get('budget_s', 300))))
     args = [(prop, i, jobs[i], seed) for i in order]
